@@ -60,9 +60,8 @@ theorem optimize_roundtrip (hperm : ∀ l, (sorter l).Perm l) {t : Table} (hwf :
   rw [ho] at h
   cases h
   obtain ⟨hin, hback⟩ := emits_codons hwf.1 p cs hem
-  have hasc := flatten_ascii cs hin
   have hcore : translateCore t cs.flatten = p := by
-    rw [translateCore_eq_chunks _ _ hasc, chunks3_flatten cs (fun c hc => all64_len3 c (hin c hc))]
+    rw [translateCore_eq_chunks, chunks3_flatten cs (fun c hc => all64_len3 c (hin c hc))]
     exact hback
   have hne : cs.flatten ≠ [] := by
     intro h0
